@@ -71,6 +71,14 @@ def run(res, b, tier, seed):
         progs.append(pipeline.Case("i%d" % len(progs), {"main.tsh": b'import u "lib/util.tsh"\nprint(u.Hello())\n',
                                                          "lib/util.tsh": b'import c "config.tsh"\nfunc Hello() string {\n\treturn "hello from " + c.Name()\n}\n',
                                                          "lib/config.tsh": b'func Name() string {\n\treturn "project ' + who + b'"\n}\n'}))
+    # constructs of an IMPORTED file that carry a source position or a file name inside the parser (panic, errors, nested imports in
+    # sub-directories): nothing of the location of the source tree may reach the script - every round of this check transpiles in a
+    # different directory (round 13: C14-F, a panic in an imported file reported "where it was raised" with the absolute path of the file)
+    progs.append(pipeline.Case("i%d" % len(progs), {"main.tsh": b'import c "lib/check.tsh"\nc.Positive(3)\nprint(c.Half(8))\n',
+                                                     "lib/check.tsh": b'func Positive(v int) {\n\tif v < 0 {\n\t\tpanic("negative value")\n\t}\n}\nfunc Half(v int) int {\n\tif v % 2 != 0 {\n\t\tpanic("odd " + itoa(v))\n\t}\n\treturn v / 2\n}\n'}))
+    progs.append(pipeline.Case("i%d" % len(progs), {"main.tsh": b'import a "one/a.tsh"\nprint(a.Get(2))\nif a.Get(1) > 5 {\n\tpanic("main")\n}\n',
+                                                     "one/a.tsh": b'import b "two/b.tsh"\nvar Limit int = 3\nif Limit > 10 {\n\tpanic("limit")\n}\nfunc Get(v int) int {\n\treturn b.Checked(v) + Limit\n}\n',
+                                                     "one/two/b.tsh": b'func Checked(v int) int {\n\tfor i := 0; i < v; i++ {\n\t\tif i > 100 {\n\t\t\tpanic("too many")\n\t\t}\n\t}\n\treturn v\n}\n'}))
     inter1 = len(progs)
     progs.append(pipeline.Case("bad", {"main.tsh": b"x := \n"}))
     # programs the PARSER rejects at different depths of its own recursion - inside a function body, inside a loop inside a function, inside a
